@@ -342,6 +342,23 @@ def run_family(ctx, prop):
                          % (len(set(div)), div[0], describe(hist_of(allh[div[0]]))))
         log("NOTE %s: the real tracker diverges from Tracker.tla's state in %d histories (no verdict)" % (
             prop, len(set(div))))
+    rt = None
+    if prop == "C16":
+        # timing half: the one-minute ticker (Staleness.tla); real-time runs only in the thorough tier
+        stl = ctx.tlc("Staleness", "Staleness.cfg", workers=4, timeout=300, name="staleness")
+        if not ctx.quick:
+            from checks import sshdfam
+            sb = ctx.go_build("./cmd/staleness")
+            rtp = ctx.path("trace-realtime.ndjson")
+            ctx.run([sb, "-out", rtp, "-seed", str(ctx.seed)], timeout=600)
+            rbad, rn, _ = sshdfam.validate(ctx, rtp, "realtime", parts=1, module="StalenessTrace", cfg="StalenessTrace.cfg")
+            for b in rbad:
+                r = b["rec"]
+                ctx.violation("%s/%s" % (b["what"], r["order"]),
+                              "%s: real-time run of Auditd.Read, %s, second half %d s after the first: %d of %d events "
+                              "emitted (%s)" % (b["what"], r["order"], r["gap"], r["emitted"], r["want"], r["err"]),
+                              {"kind": "realtime", "observed": r})
+            rt = [json.loads(l) for l in open(rtp)]
     nontriv = sum(1 for hh in allh if any('"outs":[{' in l for l in hh))
     cov = {
         "states": mc["distinct"], "transitions": mc["generated"],
@@ -360,6 +377,8 @@ def run_family(ctx, prop):
         "checker_cmd": mc["cmd"],
         "exhaustive": True,
     }
+    if rt is not None:
+        cov["realtime_runs"] = rt
     return cov
 
 
